@@ -26,4 +26,7 @@ TEXTS = {
     "C11": {"technique": "runtime monitoring: warmed-vs-fresh retort differential over generated call histories (exhaustive ordered pairs of a confusable-request pool) with a call-cache hit monitor",
             "level": "exploration, exhaustive over ordered pairs of the pool, random for longer histories: " + _EXPL,
             "note": "fresh reference = new Retort in the same process with normalize_type's lru cache cleared"},
+    "C12": {"technique": "runtime monitoring under a deterministic thread scheduler (sys.monitoring LINE events, token passing): single-preemption sweep, sampled two-preemption, PCT and random schedules; per-call comparison with a single-threaded run",
+            "level": "exploration of schedules: every single-preemption point of the recursive scenarios (stride 4 in quick), sampled beyond: " + _EXPL,
+            "note": "statement granularity inside the retort files only; locks found in those modules are made scheduling points from the harness, unknown locks fall back to a 200 ms no-progress inference"},
 }
